@@ -560,7 +560,6 @@ func (s *Store[K, V]) postDelete(entry *Entry[K, V]) {
 // remove entry from cache/policy/timingwheel and add back to pool
 // this method must be used with policy mutex together
 func (s *Store[K, V]) removeEntry(entry *Entry[K, V], reason RemoveReason) {
-	entry.flag.SetRemoved(true)
 	_, index := s.index(entry.key)
 	shard := s.shards[index]
 
@@ -572,6 +571,9 @@ func (s *Store[K, V]) removeEntry(entry *Entry[K, V], reason RemoveReason) {
 			return
 		}
 	}
+	// flag the entry only once it is certain that it leaves: an entry whose
+	// deadline was extended concurrently stays alive and must keep receiving events
+	entry.flag.SetRemoved(true)
 
 	if prev := entry.meta.prev; prev != nil {
 		s.policy.Remove(entry, false)
@@ -671,10 +673,12 @@ func (s *Store[K, V]) sinkWrite(item WriteBufItem[K, V]) {
 		if expire := entry.expire.Load(); expire != 0 {
 			if expire <= s.timerwheel.clock.NowNano() {
 				s.removeEntry(entry, EXPIRED)
-				return
-			} else {
-				s.timerwheel.schedule(entry)
+				if entry.flag.IsRemoved() {
+					return
+				}
+				// not removed: the deadline was extended in the meantime, insert normally
 			}
+			s.timerwheel.schedule(entry)
 		}
 		s.policy.sketch.Add(item.hash)
 		entry.policyWeight += item.costChange
